@@ -120,6 +120,69 @@ def h_weighted(n, B):
     return h
 
 
+def h_weighted_history(n, steps, B):
+    """`steps` consecutive calls from the initial checker state with fresh symbolic activity flags, truth values
+    and clock readings on every call (covers state the inductive step does not know about, e.g. caches)."""
+
+    def h(ctx):
+        from scenic.core.requirements import SamplingRequirement
+        from scenic.core.sample_checking import WeightedAcceptanceChecker
+
+        evaluated = []
+
+        class StubReq(SamplingRequirement):
+            def __init__(self, i, optional):
+                super().__init__(optional=optional)
+                self.i = i
+                self.truth = False
+
+            def falsifiedByInner(self, sample):
+                evaluated.append(self.i)
+                return self.truth
+
+            @property
+            def violationMsg(self):
+                return f"req {self.i}"
+
+        reqs = [StubReq(i, ctx.flag(f"optional{i}")) for i in range(n)]
+        chk = WeightedAcceptanceChecker(bufferSize=B)
+        chk.setRequirements(reqs)
+        now = [0.0]
+
+        def perf_counter():
+            d = ctx.real("dt", 0, None)
+            now[0] = now[0] + d
+            return now[0]
+
+        saved = _time.perf_counter
+        _time.perf_counter = perf_counter
+        try:
+            for k in range(steps):
+                del evaluated[:]
+                fals = []
+                for r in reqs:
+                    r.active = ctx.flag(f"active{r.i}@{k}")
+                    r.truth = ctx.bool(f"falsified{r.i}@{k}")
+                    fals.append(r.truth)
+                act_mand = [j for j in range(n) if reqs[j].active and not reqs[j].optional]
+                mand_fals = E.sym_or(*[fals[j] for j in act_mand]) if act_mand else False
+                for i in range(n):
+                    if reqs[i].optional:
+                        ctx.assume(E.sym_or(E.sym_not(fals[i]), mand_fals))
+                result = chk.checkRequirementsInner(None)
+                if result is None:
+                    ctx.check("accepted-only-if-every-active-mandatory-requirement-evaluated",
+                              all(j in evaluated for j in act_mand), call=k, evaluated=list(evaluated), needed=act_mand)
+                    ctx.check("accepted-only-if-every-active-mandatory-requirement-holds", E.sym_not(mand_fals), call=k)
+                else:
+                    ctx.check("rejected-only-if-some-active-mandatory-requirement-fails", mand_fals, call=k)
+                ctx.check("inactive-requirements-never-evaluated", all(reqs[j].active for j in evaluated), call=k)
+        finally:
+            _time.perf_counter = saved
+
+    return h
+
+
 def h_basic(n):
     def h(ctx):
         from scenic.core.requirements import (BlanketCollisionRequirement, IntersectionRequirement,
@@ -167,6 +230,25 @@ def h_basic(n):
 
 
 # ------------------------------------------------------------------ (b) default requirements
+class _RandomFlag:
+    """Stands for a Boolean-valued distribution (needsSampling is true)."""
+
+    _needsSampling = True
+    _isLazy = True
+
+    def __bool__(self):
+        raise AssertionError("a random flag must not be used as a Boolean at compile time")
+
+
+def _make_random_flag():
+    from scenic.core.distributions import Options
+
+    return Options([True, False])
+
+
+RANDOM_FLAG = None
+
+
 class StubRegion:
     def __init__(self, name):
         self.name = name
@@ -179,6 +261,10 @@ def h_default_requirements(n_objs, observers, nonobservers, require_visible):
     def h(ctx):
         import scenic.core.scenarios as S
         from scenic.core.regions import AllRegion
+
+        global RANDOM_FLAG
+        if RANDOM_FLAG is None:
+            RANDOM_FLAG = _make_random_flag()
         from scenic.core.requirements import (BlanketCollisionRequirement, ContainmentRequirement,
                                               IntersectionRequirement, NonVisibilityRequirement,
                                               VisibilityRequirement)
@@ -190,8 +276,9 @@ def h_default_requirements(n_objs, observers, nonobservers, require_visible):
         for i in range(n_objs):
             o = Obj()
             o.name = f"o{i}"
-            o.allowCollisions = ctx.flag(f"allowCollisions{i}")
-            o.occluding = ctx.flag(f"occluding{i}")
+            # three-valued flags: False, True, or random (a distribution to be sampled later)
+            o.allowCollisions = ctx.choice(f"allowCollisions{i}", [False, True, RANDOM_FLAG])
+            o.occluding = ctx.choice(f"occluding{i}", [False, True, RANDOM_FLAG])
             o.requireVisible = i in require_visible
             o._observingEntity = None
             o._nonObservingEntity = None
@@ -245,14 +332,14 @@ def h_default_requirements(n_objs, observers, nonobservers, require_visible):
         want = []
         if S.INITIAL_COLLISION_CHECK:
             want.append(("blanket", tuple(o.name for o in objs), True))
-        coll = [o for o in objs if not o.allowCollisions]
+        coll = [o for o in objs if o.allowCollisions is RANDOM_FLAG or not o.allowCollisions]
         for a, b in itertools.combinations(coll, 2):
             want.append(("intersect", frozenset((a.name, b.name)), False))
         for o in objs:
             c = o.regionContainedIn if o.regionContainedIn is not None else ws_region
             if not isinstance(c, AllRegion):
                 want.append(("contain", o.name, c.name, False))
-        occl = [o for o in objs if o.occluding]
+        occl = [o for o in objs if o.occluding is RANDOM_FLAG or o.occluding]
         for k, v in sorted(observers.items()):
             src, tgt = insts[v], insts[k]
             want.append(("visible", src.name, tgt.name, tuple(sorted(o.name for o in occl if o is not src and o is not tgt)), False))
@@ -339,6 +426,12 @@ def obligations(tier, seed):
         obs.append(Obligation(f"basic-checker[n={n}]", h_basic(n), "BasicChecker.setRequirements + checkRequirements",
                               {"requirements": n}, [SC.BasicChecker.setRequirements, SC.BasicChecker.checkRequirementsInner,
                                                     SC.SampleChecker.checkRequirements]))
+    for n, steps in ([(2, 2)] if tier == "quick" else [(2, 3), (3, 2)]):
+        obs.append(Obligation(f"weighted-checker-history[n={n},calls={steps}]", h_weighted_history(n, steps, 100),
+                              "consecutive checkRequirementsInner calls from the initial state, fresh flags/truths/clock per call",
+                              {"requirements": n, "calls": steps, "buffer_size": 100},
+                              [W.checkRequirementsInner, W.sortedRequirements, W.updateMetrics, W.getRequirementCost],
+                              ["time.perf_counter: fresh non-decreasing symbolic reals"], opts=dict(total_timeout=600.0)))
     configs = [
         ("two-visible-from-points", 3, {1: 3, 2: 3}, {}, set()),
         ("visible-and-not-visible", 3, {1: 0}, {2: 3}, set()),
